@@ -43,23 +43,35 @@ Theorem C17_escape_clause :
     exists e, render d (VStr (k_escape k)) = Some e /\ lex_lit d e = Some ([c_bsl], []).
 Proof. exact (@escape_clause). Qed.
 
-(* full strength: for every dialect, kind, argument *)
+(* full strength: for every dialect, kind, argument: the pattern is refused by the server's lexer,
+   or it decodes to a pattern that selects exactly the literal occurrences *)
 Definition C17_helpers_full : Prop :=
   forall (d : dialect) (k : kind) (s : str),
-    exists lit pat, pattern_literal d k s = Some lit /\ lex_lit d lit = Some (pat, []) /\
-      forall eqc t, like_match eqc (Some c_bsl) pat t = literal_pred eqc k s t.
+    exists lit, pattern_literal d k s = Some lit /\
+      (lex_lit d lit = None \/
+       exists pat, lex_lit d lit = Some (pat, []) /\
+         forall eqc t, like_match eqc (Some c_bsl) pat t = literal_pred eqc k s t).
 
-(* sqlite, firebird, maxdb: full strength, every argument string *)
-Theorem C17_helpers_ansi :
+(* sqlite, firebird, maxdb, mysql: full strength, EVERY argument string
+   (mysql since the repair fbe34cd; control characters included) *)
+Theorem C17_helpers_unguarded :
   forall (d : dialect) (k : kind) (s : str),
-    plain_like_dialect d = true ->
+    unguarded_like_dialect d = true ->
     exists lit pat, pattern_literal d k s = Some lit /\ lex_lit d lit = Some (pat, []) /\
       forall eqc t, like_match eqc (Some c_bsl) pat t = literal_pred eqc k s t.
-Proof. exact (@helper_literal_ansi). Qed.
+Proof. exact (@helper_literal_unguarded). Qed.
 
-(* every dialect, outside the trigger classes excluded by like_ok
-   (mysql/postgres: NUL, backspace, LF, CR, TAB in the argument;
-    sybase/mssql: backslash + line break in the pattern) *)
+(* postgres: every NUL-free argument (control characters included since fbe34cd);
+   the NUL guard is C02's pg_nul_octal, see C17_postgres_nul_refuted *)
+Theorem C17_helpers_postgres_partial :
+  forall (k : kind) (s : str),
+    contains c_nul s = false ->
+    exists lit pat, pattern_literal Postgres k s = Some lit /\ lex_lit Postgres lit = Some (pat, []) /\
+      forall eqc t, like_match eqc (Some c_bsl) pat t = literal_pred eqc k s t.
+Proof. exact (@helper_literal_pg). Qed.
+
+(* every dialect, under like_ok d k s = str_ok d (wanted_pattern k s), i.e. exactly the guard of
+   C02's literal round trip applied to the pattern (postgres: no NUL; sybase/mssql: no backslash + line break) *)
 Theorem C17_helpers_partial :
   forall (d : dialect) (k : kind) (s : str),
     like_ok d k s = true ->
@@ -86,22 +98,34 @@ Theorem C17_contains :
       (like_match N.eqb (Some c_bsl) pat t = true <-> exists l r, t = l ++ s ++ r).
 Proof. exact (@contains_exact). Qed.
 
-(* mysql (and postgres): contains(LF) matches the text "n" and not the text LF  -- finding like_control_chars *)
-Example C17_mysql_refuted :
-  exists s t lit pat, pattern_literal Mysql KContains s = Some lit /\ lex_lit Mysql lit = Some (pat, []) /\
-    like_match N.eqb (Some c_bsl) pat t = true /\ literal_pred N.eqb KContains s t = false /\
-    like_match N.eqb (Some c_bsl) pat s = false.
-Proof. exists [10], [110], [39; 37; 92; 92; 110; 37; 39], [37; 92; 110; 37]. repeat split; vm_compute; reflexivity. Qed.
-Example C17_postgres_refuted :
-  exists s t lit pat, pattern_literal Postgres KStarts s = Some lit /\ lex_lit Postgres lit = Some (pat, []) /\
-    like_match N.eqb (Some c_bsl) pat t = true /\ literal_pred N.eqb KStarts s t = false.
-Proof. exists [9], [116; 120], [69; 39; 92; 92; 116; 37; 39], [92; 116; 37]. repeat split; vm_compute; reflexivity. Qed.
+(* the control-character defect (finding like_control_chars, fixed by fbe34cd) is gone: contains(LF) now
+   decodes to % LF % on mysql and postgres *)
+Example C17_control_chars_fixed :
+  pattern_literal Mysql KContains [10] = Some [39; 37; 92; 110; 37; 39] /\
+  lex_lit Mysql [39; 37; 92; 110; 37; 39] = Some ([37; 10; 37], []) /\
+  pattern_literal Postgres KStarts [9] = Some [69; 39; 92; 116; 37; 39] /\
+  lex_lit Postgres [69; 39; 92; 116; 37; 39] = Some ([9; 37], []).
+Proof. repeat split; vm_compute; reflexivity. Qed.
+(* what remains on postgres is C02's pg_nul_octal: contains(NUL "12") is rendered E'%\012%', a pattern for LF *)
+Example C17_postgres_nul_refuted :
+  exists s t lit pat, pattern_literal Postgres KContains s = Some lit /\ lex_lit Postgres lit = Some (pat, []) /\
+    like_match N.eqb (Some c_bsl) pat t = true /\ literal_pred N.eqb KContains s t = false.
+Proof. exists [0; 49; 50], [10], [69; 39; 37; 92; 48; 49; 50; 37; 39], [37; 10; 37]. repeat split; vm_compute; reflexivity. Qed.
 Example C17_helpers_full_is_false : ~ C17_helpers_full.
 Proof.
-  intros H. destruct (H Mysql KContains [10]) as (lit & pat & E & L & M).
-  vm_compute in E. injection E as <-. vm_compute in L. injection L as <-.
-  specialize (M N.eqb [110]). vm_compute in M. discriminate M.
+  intros H. destruct (H Postgres KContains [0; 49; 50]) as (lit & E & [L|(pat & L & M)]);
+    vm_compute in E; injection E as <-; vm_compute in L; [discriminate L|].
+  injection L as <-. specialize (M N.eqb [10]). vm_compute in M. discriminate M.
 Qed.
+(* a lone NUL is refused by the postgres lexer (allowed: PostgreSQL text cannot hold NUL) *)
+Example C17_postgres_lone_nul_rejected :
+  exists lit, pattern_literal Postgres KStarts [97; 0] = Some lit /\ lex_lit Postgres lit = None.
+Proof. eexists. split; vm_compute; reflexivity. Qed.
+(* sybase/mssql: backslash + line break in the argument (model level, C02 tsql_line_continuation) *)
+Example C17_tsql_continuation_refuted :
+  exists s t lit pat, pattern_literal Mssql KEnds s = Some lit /\ lex_lit Mssql lit = Some (pat, []) /\
+    like_match N.eqb (Some c_bsl) pat t = false /\ literal_pred N.eqb KEnds s t = true.
+Proof. exists [92; 10], [120; 92; 10], [39; 37; 92; 92; 10; 39], [37; 92]. repeat split; vm_compute; reflexivity. Qed.
 
 (* sybase, mssql: LIKE also has bracket classes.  With the Transact-SQL matcher the
    helpers are literal for arguments without `[` ...  *)
@@ -127,7 +151,7 @@ Proof. exact (@like_stmt). Qed.
 (* ---- non-vacuity ---- *)
 (* 50%_\'  *)
 Definition nasty : str := [53; 48; 37; 95; 92; 39].
-Example C17_ex_ok : like_ok Postgres KContains nasty = true /\ like_ok Mssql KEnds nasty = true /\ like_ok Mysql KStarts nasty = true.
+Example C17_ex_ok : like_ok Postgres KContains (nasty ++ [10; 9]) = true /\ like_ok Mssql KEnds nasty = true /\ like_ok Mysql KStarts [0; 10] = true.
 Proof. repeat split; vm_compute; reflexivity. Qed.
 Example C17_ex_sqlite :
   match pattern_literal Sqlite KContains nasty with
@@ -152,7 +176,8 @@ Print Assumptions C17_suffix_meaning.
 Print Assumptions C17_infix_meaning.
 Print Assumptions C17_pattern_decoded.
 Print Assumptions C17_escape_clause.
-Print Assumptions C17_helpers_ansi.
+Print Assumptions C17_helpers_unguarded.
+Print Assumptions C17_helpers_postgres_partial.
 Print Assumptions C17_helpers_partial.
 Print Assumptions C17_startswith.
 Print Assumptions C17_endswith.
